@@ -118,6 +118,42 @@ pub fn run(ctx: &Ctx) -> Report {
             judge(&c02::in_negative_bank(c02::prog_of(&f, &seq)).render(), "pc-relative-in-a-bank-at-a-negative-address", b, l);
         }));
     }
+    // every family again in a bank whose addresses lie beyond the machine word (addresses are unbounded integers:
+    // a label that moves from 2^64+a to 2^64+b has changed like any other)
+    const WIDE: &str = "#bankdef wide { #addr 0x1_0000_0000_0000_0000, #outp 0 }\n";
+    for f in c02::families() {
+        let k = f.items.len() as u64;
+        let maxlen = f.maxlen(ctx.thorough);
+        let b = &budgets;
+        rep.absorb(par_run(seq_count(k, maxlen), |i, l| {
+            let seq = seq_decode(i, k, maxlen);
+            judge(&format!("{}{}", WIDE, c02::prog_of(&f, &seq).render()), "family-in-a-bank-beyond-the-machine-word", b, l);
+        }));
+    }
+    // a jump over an instruction of variable size whose encoding does not change when it is re-resolved (opcode and
+    // late operand both zero or not), at small, wide and negative bank addresses
+    {
+        let mut progs: Vec<String> = vec![];
+        for addr in ["0", "0x1_0000_0000_0000_0000", "0xffff_ffff_ffff_fff0", "-0x100"] {
+            for opc in ["0x00", "0x10"] {
+                for late in ["done - done", "done - done + 1", "done - done + 0x100", "done`4"] {
+                    for pad in 0..=2usize {
+                        for width in ["a`8", "a`16"] {
+                            let mut t = format!("#ruledef\n{{\n    jmp {{a}} => 0x10 @ {}\n    ld {{x: u8}} => {} @ x\n    ld {{x: u16}} => {} @ x\n    halt => 0xff\n}}\n#bankdef code {{ #addr {}, #size 0x100, #outp 0 }}\n", width, opc, opc, addr);
+                            t += "jmp done\nld x\n";
+                            for _ in 0..pad {
+                                t += "ld x\n";
+                            }
+                            t += &format!("done:\nhalt\nx = zero\nzero = {}\n", late);
+                            progs.push(t);
+                        }
+                    }
+                }
+            }
+        }
+        rep.absorb(par_cases(&progs, |s, l| judge(s, "late-zero-operand-at-wide-addresses", &(1..=31).collect::<Vec<usize>>(), l)));
+        rep.absorb(par_cases(&progs, |s, l| judge_sw(s, "late-zero-operand-at-wide-addresses-unoptimised", &(1..=31).collect::<Vec<usize>>(), false, l)));
+    }
     let all: Vec<usize> = (1..=31).collect();
     let grid: Vec<(usize, bool)> = (0..=12).flat_map(|n| [(n, false), (n, true)]).collect();
     rep.absorb(par_cases(&grid, |(n, osc), l| judge(&c02::chain_prog(*n, *osc).render(), "skeleton-chain", &all, l)));
